@@ -11,11 +11,28 @@ import (
 
 // iterView adapts the five iterator interfaces to one shape.
 type iterView struct {
-	name  string
+	name  string  // method name; args are appended lazily
+	args  [2]int64
+	nargs int
 	it    graph.Iterator
 	cur   func() item
 	slice func() []item         // nil when the iterator has no XxxSlice method
 	each  func(i int) *vk.Failure // optional hook on every element of the first pass
+}
+
+func (v *iterView) String() string {
+	switch v.nargs {
+	case 1:
+		return fmt.Sprintf("%s(%d)", v.name, v.args[0])
+	case 2:
+		return fmt.Sprintf("%s(%d,%d)", v.name, v.args[0], v.args[1])
+	}
+	return v.name
+}
+
+func (v iterView) with(args ...int64) iterView {
+	v.nargs = copy(v.args[:], args)
+	return v
 }
 
 func sortItems(s []item) { slices.SortFunc(s, cmpItem) }
@@ -58,19 +75,47 @@ func fmtItems(s []item) string {
 // is stable, Reset restarts, XxxSlice returns exactly the remaining items.
 // want may be reordered.
 func (x *ctx) checkIter(v iterView, want []item) *vk.Failure {
+	if len(want) == 0 && v.it != nil {
+		return x.checkEmptyIter(&v)
+	}
+	return x.checkIterFull(&v, want)
+}
+
+// checkEmptyIter is checkIter for an empty model answer, without allocation.
+func (x *ctx) checkEmptyIter(v *iterView) *vk.Failure {
+	for round := 0; round < 2; round++ {
+		if l := v.it.Len(); l > 0 {
+			return x.failf("iter-len", "%v: Len()=%d, model has no items", v, l)
+		} else if l < 0 {
+			x.classes["len-unknown:"+v.name]++
+		}
+		if v.it.Next() {
+			return x.failf("iter-too-many", "%v yields %s, model has no items", v, fmtItems([]item{v.cur()}))
+		}
+		if v.slice != nil {
+			if rest := v.slice(); len(rest) != 0 {
+				return x.failf("iter-slice", "%v: slice method returns %s, model has no items", v, fmtItems(rest))
+			}
+		}
+		v.it.Reset()
+	}
+	return nil
+}
+
+func (x *ctx) checkIterFull(v *iterView, want []item) *vk.Failure {
 	if v.it == nil {
-		return x.failf("iter-nil", "%s returned a nil iterator", v.name)
+		return x.failf("iter-nil", "%v returned a nil iterator", v)
 	}
 	n := len(want)
 	got := make([]item, 0, n)
 	if l := v.it.Len(); l < 0 {
 		x.classes["len-unknown:"+v.name]++
 	} else if l != n {
-		return x.failf("iter-len", "%s: Len()=%d before iteration, model has %d items %s", v.name, l, n, fmtItems(want))
+		return x.failf("iter-len", "%v: Len()=%d before iteration, model has %d items %s", v, l, n, fmtItems(want))
 	}
 	for v.it.Next() {
 		if len(got) >= n {
-			return x.failf("iter-too-many", "%s yields more than the %d items of the model: %s then %s", v.name, n, fmtItems(got), fmtItems([]item{v.cur()}))
+			return x.failf("iter-too-many", "%v yields more than the %d items of the model: %s then %s", v, n, fmtItems(got), fmtItems([]item{v.cur()}))
 		}
 		got = append(got, v.cur())
 		if v.each != nil {
@@ -82,31 +127,31 @@ func (x *ctx) checkIter(v iterView, want []item) *vk.Failure {
 			if l == n-len(got)+1 && isOrderedEdgesOrLines(v.it) {
 				// Known defect of the four slice backed edge/line iterators:
 				// the item just returned is still counted.
-				x.softFail(x.failf("ordered-iter-len-counts-current-item",
-					"%s (%T): Len()=%d after Next returned %d of %d items; the documentation says Len is the number of items remaining", v.name, v.it, l, len(got), n))
+				x.softf("ordered-iter-len-counts-current-item",
+					"%v (%T): Len()=%d after Next returned %d of %d items; the documentation says Len is the number of items remaining", v, v.it, l, len(got), n)
 				continue
 			}
-			return x.failf("iter-len", "%s: Len()=%d after %d of %d items", v.name, l, len(got), n)
+			return x.failf("iter-len", "%v: Len()=%d after %d of %d items", v, l, len(got), n)
 		}
 	}
 	if !sameItems(got, want) {
-		return x.failf("iter-items", "%s yields %s, model has %s", v.name, fmtItems(got), fmtItems(want))
+		return x.failf("iter-items", "%v yields %s, model has %s", v, fmtItems(got), fmtItems(want))
 	}
 	if v.it.Next() {
-		return x.failf("iter-next-after-end", "%s: Next() is true again after it returned false", v.name)
+		return x.failf("iter-next-after-end", "%v: Next() is true again after it returned false", v)
 	}
 	if l := v.it.Len(); l > 0 {
-		return x.failf("iter-len", "%s: Len()=%d after the end", v.name, l)
+		return x.failf("iter-len", "%v: Len()=%d after the end", v, l)
 	}
 	// Reset, consume half, take the rest with the slice method.
 	v.it.Reset()
 	if l := v.it.Len(); l >= 0 && l != n {
-		return x.failf("iter-reset-len", "%s: Len()=%d after Reset, want %d", v.name, l, n)
+		return x.failf("iter-reset-len", "%v: Len()=%d after Reset, want %d", v, l, n)
 	}
 	got = got[:0]
 	for i := 0; i < n/2; i++ {
 		if !v.it.Next() {
-			return x.failf("iter-reset", "%s: after Reset only %d of %d items", v.name, i, n)
+			return x.failf("iter-reset", "%v: after Reset only %d of %d items", v, i, n)
 		}
 		got = append(got, v.cur())
 	}
@@ -115,31 +160,31 @@ func (x *ctx) checkIter(v iterView, want []item) *vk.Failure {
 		if k := len(got); k >= 1 && len(rest) == n-k+1 && rest[0] == got[k-1] && isOrderedEdgesOrLines(v.it) {
 			// Known defect of the same four iterators: the slice method
 			// returns the current item again.
-			x.softFail(x.failf("ordered-iter-slice-repeats-current-item",
-				"%s (%T): after %d calls of Next the slice method returns %d items starting with the item Next returned last; documented: the items remaining to be iterated", v.name, v.it, k, len(rest)))
+			x.softf("ordered-iter-slice-repeats-current-item",
+				"%v (%T): after %d calls of Next the slice method returns %d items starting with the item Next returned last; documented: the items remaining to be iterated", v, v.it, k, len(rest))
 			rest = rest[1:]
 		}
 		all := append(got, rest...)
 		if !sameItems(all, want) {
-			return x.failf("iter-slice", "%s: %d items by Next then slice %s; together they are not the model's %s", v.name, n/2, fmtItems(rest), fmtItems(want))
+			return x.failf("iter-slice", "%v: %d items by Next then slice %s; together they are not the model's %s", v, n/2, fmtItems(rest), fmtItems(want))
 		}
 		if l := v.it.Len(); l > 0 {
-			return x.failf("iter-slice-len", "%s: Len()=%d after the slice method", v.name, l)
+			return x.failf("iter-slice-len", "%v: Len()=%d after the slice method", v, l)
 		}
 		if v.it.Next() {
-			return x.failf("iter-slice-next", "%s: Next() true after the slice method consumed the iterator", v.name)
+			return x.failf("iter-slice-next", "%v: Next() true after the slice method consumed the iterator", v)
 		}
 		v.it.Reset()
 		got = got[:0]
 	}
 	for v.it.Next() {
 		if len(got) >= n {
-			return x.failf("iter-reset-too-many", "%s yields more than %d items after Reset", v.name, n)
+			return x.failf("iter-reset-too-many", "%v yields more than %d items after Reset", v, n)
 		}
 		got = append(got, v.cur())
 	}
 	if !sameItems(got, want) {
-		return x.failf("iter-reset-items", "%s yields %s after Reset, model has %s", v.name, fmtItems(got), fmtItems(want))
+		return x.failf("iter-reset-items", "%v yields %s after Reset, model has %s", v, fmtItems(got), fmtItems(want))
 	}
 	return nil
 }
